@@ -418,11 +418,25 @@ class Case:
                    f"std::array<S, {n}> in{{{', '.join(cq(c) for c in coeffs)}}}; auto r = {e.cpp()}.transform(in, req(s{g}), {k}ull); out.arr(r);")
 
     def bilin(self, e1, e2, a, b):
-        self._emit(f"Bilin {a} {b} {e1.text()} {e2.text()}",
-                   f"BilinearForm bf({e1.cpp()}, {e2.cpp()}); out.f(bf(req(s{a}), req(s{b})));")
+        # every constructor of BilinearForm is exercised: (O1, O2), (O2) with the identity on the left,
+        # the default constructor and the ScalarProduct alias; alternately operator() and evaluate()
+        alt = len(self.lines) % 2 == 0
+        if e1.head == 'Id' and e2.head == 'Id' and alt:
+            ctor = "bspline::integration::ScalarProduct bf{};"
+        elif e1.head == 'Id' and e2.head == 'Id':
+            ctor = "BilinearForm bf{};"
+        elif e1.head == 'Id' and alt:
+            ctor = f"BilinearForm bf({e2.cpp()});"
+        else:
+            ctor = f"BilinearForm bf({e1.cpp()}, {e2.cpp()});"
+        call = f"bf(req(s{a}), req(s{b}))" if alt else f"bf.evaluate(req(s{a}), req(s{b}))"
+        self._emit(f"Bilin {a} {b} {e1.text()} {e2.text()}", f"{ctor} out.f({call});")
 
     def lin(self, e, a):
-        self._emit(f"Lin {a} {e.text()}", f"LinearForm lf({e.cpp()}); out.f(lf(req(s{a})));")
+        alt = len(self.lines) % 2 == 0
+        ctor = "LinearForm lf{};" if (e.head == 'Id' and alt) else f"LinearForm lf({e.cpp()});"
+        call = f"lf(req(s{a}))" if alt else f"lf.evaluate(req(s{a}))"
+        self._emit(f"Lin {a} {e.text()}", f"{ctor} out.f({call});")
 
     # -- numerical quadrature (floating-point tiers only; the model line is the analytic form) --
     def quad(self, n, w, a, b):
